@@ -21,6 +21,11 @@ SPECIAL = ["", " ", "\n\n", "\t", "   \n  \n", "x = 1\x00", "\x00", "x = '\ud800
            # lone-CR files with a syntax error spanning several lines, on and after line 1
            "x = (1,\r2\r3 4)", "a = 1\rx = (1,\r2\r3 4)\r", "a = 1\rb = 2\rx = [1,\r2\r3 4]", "ok = 1\rs = f(1,\r 2\r 3 4)\rz = 1\r",
            "a = 1\rx = (1,\r2\r3)\ry = = 1\r", "a = 1\rq = \"\"\"abc\rdef\r", "a = 1\rx = {1:\r2,\r3}\r!\r",
+           # PEP 484 type comments are comments: accepted wherever a comment is, and absent from the tree
+           "x = []  # type: list\n", "print('hi')  # type: str\n", "def f(a):\n    # type: (int) -> int\n    return a\n",
+           "count = 0\ncount += 1  # type: int\n", "v = 5  # type: ignore\n", "xs = [1,  # type: int\n      2]\n",
+           # an error that spans several lines (a forgotten comma), LF line ends
+           "x = [1,\n 2\n 3]\n", "r = add(first\n second)\n", "a = 1\nx = (1,\n2\n3 4)\n",
            # characters splitlines() treats as line breaks but the parser does not, before an error
            "a = '\x0c'\nb = ' '\nc = (\n", "a = 1\x0c\nb = 2\x0b\nc = = 3\n", "s = '\x85'\ny = (1\n"]
 
@@ -165,6 +170,27 @@ def bounded(arg):
             if kind == 'ok' and syn:
                 failures.append({'id': 'spurious_syntax_feedback', 'canon': 'spurious_syntax_feedback (inside a section)',
                                  'detail': 'whole file %r parses but %r attached' % (whole, [f.label for f in syn])})
+    # past the last section the whole file is the main code again: the parser's own line, not shifted
+    for whole in ("import math\n##### Part 1\na = (1\n##### Part 2\nb = 2\nprint(b)\n", "x = 1\n##### Part 1\ny = = 2\n"):
+        evaluations += 1
+        distinct.add(('past_the_end', whole))
+        report = Report()
+        report.contextualize(Submission(files={'answer.py': whole}, main_file='answer.py', main_code=whole))
+        try:
+            separate_into_sections(independent=True, report=report)
+            for _ in range(whole.count('##### Part') + 1):
+                next_section(report=report)
+            verify(report=report)
+        except BaseException as e:
+            failures.append({'id': 'never_raises', 'canon': 'never_raises (past the last section)',
+                             'detail': 'scenario raised %r for %r' % (e, whole)})
+            continue
+        kind, val = parser_outcome(whole)
+        syn = [f for f in report.feedback if f.label in ('syntax_error', 'indentation_error')]
+        if report.submission.main_code == whole and kind == 'syntax' and (len(syn) != 1 or syn[0].location.line != val.lineno):
+            failures.append({'id': 'line', 'canon': 'line (past the last section)',
+                             'detail': 'whole file %r presented again: parser line %r, feedback %r' % (
+                                 whole, val.lineno, [f.location.line for f in syn])})
     samples = [{'text': SPECIAL[5]}, {'text': BASE[1]}, {'text': texts[len(BASE) + len(SPECIAL)]}]
     return {'name': 'B-verify', 'bound': '%d source texts (%d valid programs, %d special texts, %d random 1-2 character '
             'mutations) x 2 line offsets' % (len(texts), len(BASE), len(SPECIAL), len(texts) - len(BASE) - len(SPECIAL)),
